@@ -472,6 +472,18 @@ BRIDGE = {
         "theorems": ["is_valid_config_true_iff", "is_valid_config_not_err"],
         "props": ["C16", "C15"],
     },
+    "Rough.Bridge.ServerLoop": {
+        "rs_modules": ["Server", "Responder", "Request", "Online", "Message", "Merkle"],
+        "theorems": ["collect_requests_sim", "service_socket_sim", "send_responses_exact"],
+        "props": ["C07", "C08", "C09", "C17", "C18", "C19"],
+    },
+    "Rough.Bridge.Stats": {
+        "rs_modules": ["StatsCore", "StatsAgg", "StatsPer"],
+        "theorems": ["uniq_init", "uniq_record", "per_client_record_eq", "per_client_clear_eq", "per_client_totals_eq",
+                     "aggregated_record_eq", "aggregated_new_eq", "aggregated_clear_eq", "aggregated_totals_eq",
+                     "client_stats_merge_eq", "client_stats_merge_other"],
+        "props": ["C17"],
+    },
     "Rough.Bridge.Merkle": {
         "rs_modules": ["Merkle"],
         "theorems": ["new_eq", "node_len_eq", "hash_leaf_eq", "hash_nodes_eq", "finalize_output_sim", "push_leaf_sim", "reset_eq",
@@ -492,6 +504,8 @@ _BRIDGE_WHAT = {
     "Rough.Bridge.Sign": "sign.rs (MsgSigner from_seed / update / sign / public_key_bytes, MsgVerifier new / update / verify; ed25519-dalek = the abstract scheme)",
     "Rough.Bridge.Envelope": "kms/envelope.rs decrypt_seed (blob parser, provider unwrap, AEAD open; ring AES-256-GCM and the provider are the model's abstract Aead / Kms)",
     "Rough.Bridge.Config": "config/mod.rs is_valid_config (every range / presence / directory / address decision of the start-up validator)",
+    "Rough.Bridge.ServerLoop": "server.rs collect_requests and service_socket (the datagram path: classification of every received datagram, queuing, the two batches per pass, at most 16 batches per call, the backlog flag)",
+    "Rough.Bridge.Stats": "stats/{mod,aggregated,per_client}.rs (every add_* of both recorders = the model's record; getters = the model's totals; ClientStats::merge)",
     "Rough.Bridge.Tables": "tag.rs / version.rs (wire values, from_wire, is_nested, names, signing contexts, supported-versions list: the tables the other generated modules use through externs)",
     "Rough.Bridge.SendResponses": "responder.rs send_responses (the whole batch loop incl. failing sends, fault injection, lazily evaluated debug! arguments, statistics events)",
 }
